@@ -231,8 +231,9 @@ func GenerateRoutes(
 	logger.Debug("Formatting %d bytes of output code", len(result))
 	formattedOutput, err := compilation.OptimizeImportsAndFormat(result)
 	if err != nil {
-		logger.Warn("Could not format output - %v", err)
-		formattedOutput = result
+		// Output that cannot be formatted is not valid Go code; writing it would hand the user a broken routes file
+		logger.Fatal("Could not format output - %v", err)
+		return fmt.Errorf("generated routes are not valid Go code - %w", err)
 	}
 
 	err = os.MkdirAll(filepath.Dir(args.OutputPath), 0755)
